@@ -114,7 +114,7 @@ def known_expected(b: bytes, name: str):
             ne = dict(ent)
             for var in tb.variables:
                 raw = ent[var.name]
-                if var.type.name in ("MVT_VARIABLE", "MVT_FIXED") and var.probably_text and not var.probably_binary \
+                if var.type.name in ("MVT_VARIABLE", "MVT_FIXED") and gen_msg.is_text_like(var) \
                         and raw.endswith(b"\x00\x00"):
                     try:
                         raw.decode("utf8")
@@ -397,7 +397,7 @@ def nul_variant_spec(rng, tmpl, spec):
         tb = tmpl.get_block(bname)
         for ent in entries:
             for var in tb.variables:
-                if var.type.name == "MVT_VARIABLE" and var.probably_text and not var.probably_binary:
+                if var.type.name == "MVT_VARIABLE" and gen_msg.is_text_like(var):
                     txt = rng.choice([b"abc", b"", b"hello there", "é".encode("utf8")])
                     raw = txt + b"\x00" * rng.choice([0, 1, 2, 3])
                     if len(raw) <= gen_msg.var_max_len(var):
@@ -418,7 +418,7 @@ def zero_run_spec(rng, tmpl, spec):
         tb = tmpl.get_block(bname)
         for ent in entries:
             for var in tb.variables:
-                if var.type.name == "MVT_VARIABLE" and not (var.probably_text and not var.probably_binary) \
+                if var.type.name == "MVT_VARIABLE" and not (gen_msg.is_text_like(var)) \
                         and gen_msg.var_max_len(var) >= 257:
                     cands.append((ent, var))
     if not cands:
